@@ -229,16 +229,22 @@ class BracedNameToken(XPathToken):
             raise self.wrong_syntax("not allowed symbol if parser has strict=True")
 
         self.parser.next_token.unexpected('{')
-        if self.parser.next_token.symbol == '}':
-            namespace = ''
-        else:
-            value = self.parser.next_token.value
-            if not isinstance(value, str):
-                # a numeric literal: use its source text
-                start, end = self.parser.next_token.span
-                value = self.parser.source[start:end]
-            namespace = value + self.parser.advance_until('}')
-            namespace = collapse_white_spaces(namespace)
+
+        # The namespace name is taken from the raw source, because it can contain
+        # characters that the tokenizer matches otherwise (e.g. quotes or digits).
+        start = self.span[1]
+        end = self.parser.source.find('}', start)
+        if end < 0:
+            self.parser.advance_until('}')
+            raise self.parser.next_token.wrong_syntax()
+        namespace = collapse_white_spaces(self.parser.source[start:end])
+
+        # Restart the tokenization from the closing brace
+        assert self.parser.tokenizer is not None
+        self.parser.tokens = iter(self.parser.tokenizer.finditer(self.parser.source, end))
+        self.parser.next_token = self
+        self.parser.advance()
+        self.parser.token = self
 
         try:
             AnyURI(namespace)
